@@ -21,7 +21,6 @@ func (p *Pool) lazyResend() {
 	go func() {
 		defer func() {
 			verifhook.At("wpool.flusher.exit")
-			p.lazySendM.Unlock()
 			p.sendWg.Done()
 		}()
 
@@ -29,6 +28,11 @@ func (p *Pool) lazyResend() {
 			verifhook.At("wpool.flusher.loop")
 			p.listM.Lock()
 			n := p.el.PopBack()
+			if n == nil {
+				// give the flusher role up while the list is still locked: a Send that
+				// pushes after this point finds the try-lock free and starts a new flusher
+				p.lazySendM.Unlock()
+			}
 			p.listM.Unlock()
 			verifhook.At("wpool.flusher.popped")
 			if n == nil {
@@ -37,6 +41,7 @@ func (p *Pool) lazyResend() {
 
 			select {
 			case <-p.ctx.Done():
+				p.lazySendM.Unlock()
 				return
 			case p.ch <- n.V():
 				verifhook.At("wpool.flusher.sent")
